@@ -12,6 +12,7 @@ import (
 	"encoding/json"
 	"fmt"
 	"os"
+	"regexp"
 	"sort"
 	"strings"
 	"sync"
@@ -23,6 +24,8 @@ import (
 )
 
 func init() { register("C06", runC06) }
+
+var fdUnionRe = regexp.MustCompile(`\bus\b`)
 
 type fdA struct{ Id int64 }
 type fdB struct{ Id int64 }
@@ -353,7 +356,7 @@ func (w *fdWorld) federated(query string) (res interface{}, reqs []fdRequest, er
 	return out, reqs, nil
 }
 
-func c06One(c *Ctx, cs c06Case) {
+func c06One(c *Ctx, m *Model, cs c06Case) {
 	rep := c.Rep
 	w, err := fdSetup(cs)
 	if err != nil {
@@ -386,6 +389,9 @@ func c06One(c *Ctx, cs c06Case) {
 				return
 			}
 			continue
+		}
+		if !fdUnionRe.MatchString(query) {
+			c06Model(c, m, w, cs, query, got, wantJ)
 		}
 		rep.Count(fmt.Sprintf("requests=%d", len(reqs)))
 		rep.Eval(Canon(one), len(reqs) > 1, map[string]interface{}{"services": cs.Partition.Services, "requests": len(reqs)})
@@ -577,6 +583,11 @@ func c06GenQuery(r *Rand) string {
 }
 
 func runC06(c *Ctx) error {
+	m, err := StartModel("C06")
+	if err != nil {
+		return err
+	}
+	defer m.Close()
 	c.Rep.Rule = "random partitions of a pool of 15 fields (Query roots, two federated object types with scalar fields, a field with an argument, links and lists of links with nulls, a union of both) over 2-3 real federation servers (some fields served by two services) x random stores x random valid queries (aliases, the same alias repeated with different sub-selections, nested inline fragments, union fragments, __typename, @skip/@include on fields and fragments, arguments, multi-hop plans); the real federation.Executor's answer (through JSON) is compared with a monolith graphql schema serving all fields over the same data; every sub-query is executed by the receiving real server, which rejects fields or arguments it does not expose"
 	if c.Replay != "" {
 		var f struct {
@@ -589,7 +600,7 @@ func runC06(c *Ctx) error {
 		if err := json.Unmarshal(b, &f); err != nil {
 			return err
 		}
-		c06One(c, f.Case)
+		c06One(c, m, f.Case)
 		fmt.Printf("replay: %d failures\n", len(c.Rep.Failures))
 		return nil
 	}
@@ -600,7 +611,7 @@ func runC06(c *Ctx) error {
 		for k := 0; k < 25; k++ {
 			cs.Queries = append(cs.Queries, c06GenQuery(r))
 		}
-		c06One(c, cs)
+		c06One(c, m, cs)
 	}
 	return nil
 }
